@@ -37,7 +37,16 @@ import (
 	"verif/harness/common"
 )
 
-const repoDir = "/repo"
+// repoDir is the tree the binaries are built from: /repo, unless VERIF_STACK_REPO names another
+// checkout (used by the self-tests of this driver: a mutated or a repaired copy of the tree).
+var repoDir = func() string {
+	if d := os.Getenv("VERIF_STACK_REPO"); d != "" {
+		return d
+	}
+	return "/repo"
+}()
+
+const certDir = "/repo/testcerts"
 
 // ---------------------------------------------------------------- scratch space and binaries
 
@@ -406,12 +415,12 @@ func containsNameKey(hs []hold, name, key string) bool {
 // ---------------------------------------------------------------- test certificates
 
 const (
-	certServer    = repoDir + "/testcerts/server_cert.pem"
-	keyServer     = repoDir + "/testcerts/server_key.pem"
-	certCA        = repoDir + "/testcerts/ca_cert.pem"
-	certClientCA  = repoDir + "/testcerts/client_ca_cert.pem"
-	certClient    = repoDir + "/testcerts/client_cert.pem"
-	keyClient     = repoDir + "/testcerts/client_key.pem"
+	certServer    = certDir + "/server_cert.pem"
+	keyServer     = certDir + "/server_key.pem"
+	certCA        = certDir + "/ca_cert.pem"
+	certClientCA  = certDir + "/client_ca_cert.pem"
+	certClient    = certDir + "/client_cert.pem"
+	keyClient     = certDir + "/client_key.pem"
 	tlsServerName = "127.0.0.1"
 )
 
